@@ -516,3 +516,37 @@ def replay_document_init(index, ob, seed, saved=None):
         except Exception as e:
             return _r(True, input=case, observed=f"{type(e).__name__}: {e}")
     return _r(False, tried=len(cases))
+
+
+def replay_colour_collection(index, ob, seed, saved=None):
+    """A colour placed on any colour-bearing field of a component must appear in the document's colour table and be referenced by a
+    non-zero index (native run of the real pipeline)."""
+    import re
+    import polars as pl
+    rtf = index.real_module("rtflite")
+    df = pl.DataFrame({"x": ["r0"], "y": [1]})
+    cases = []
+    for comp in ("RTFColumnHeader", "RTFFootnote", "RTFSource", "RTFBody"):
+        for fld in ("text_color", "text_background_color", "border_color_left", "border_color_right", "border_color_top", "border_color_bottom"):
+            cases.append({"component": comp, "field": fld, "colour": "red"})
+    for case in cases:
+        if saved is not None and case != saved.get("input", saved):
+            continue
+        comp, fld = case["component"], case["field"]
+        kw = {fld: ["red"]}
+        try:
+            if comp == "RTFColumnHeader":
+                doc = rtf.RTFDocument(df=df, rtf_column_header=[rtf.RTFColumnHeader(text=["X", "Y"], **kw)])
+            elif comp == "RTFFootnote":
+                doc = rtf.RTFDocument(df=df, rtf_footnote=rtf.RTFFootnote(text="fn", **kw))
+            elif comp == "RTFSource":
+                doc = rtf.RTFDocument(df=df, rtf_source=rtf.RTFSource(text="src", as_table=True, **kw))
+            else:
+                doc = rtf.RTFDocument(df=df, rtf_body=rtf.RTFBody(**kw))
+            s = doc.rtf_encode()
+        except Exception as e:
+            return _r(True, input=case, observed=f"{type(e).__name__}: {e}")
+        ct = re.search(r"\{\\colortbl[^}]*\}", s)
+        if not ct or "\\red255\\green0\\blue0" not in ct.group(0):
+            return _r(True, input=case, observed=f"colour table {ct.group(0) if ct else None!r} has no entry for red")
+    return _r(False, tried=len(cases))
